@@ -111,7 +111,7 @@ def _prune(keep, limit=16):
     ents = []
     for n in os.listdir(CACHE):
         p = os.path.join(CACHE, n)
-        if os.path.isdir(p) and n != keep and not n.startswith("fixture"):
+        if os.path.isdir(p) and n != keep and not n.startswith("fixture") and not n.startswith("witness"):
             ents.append((os.path.getmtime(p), p))
     ents.sort()
     for _, p in ents[:-limit] if len(ents) > limit else []:
